@@ -17,7 +17,7 @@ RULE = (
     "cases: programs op_n(...op_1(uxda)) of depth 1..4 over a catalogue of ~75 operations tagged with the family the property names "
     "(arithmetic/NumPy, where/clip/fillna/astype, indexing on non-grid dimensions in every spelling, reductions, cumulative and "
     "rolling operations, transposition, renaming, coordinate assignment, concatenation, shallow/deep copies) interleaved with uxarray's "
-    "own operations (grid-dimension indexing through isel kwargs / positional dict / [] / head, remap, integrate, gradient, difference, "
+    "own operations (grid-dimension indexing through isel kwargs / positional dict / [] / head / tail / thin with sorted, shuffled, repeated, boolean-mask (numpy and DataArray), negative-step and one-element indexers, where(..., drop=True) over a grid dimension, remap, integrate, gradient, difference, "
     "topological aggregation, get_dual); data face-, node- or edge-centred with 0..2 leading dimensions (one with a coordinate), "
     "float64/float32/int64/bool. Every single operation is run on every data kind (complete over the catalogue), then seeded random "
     "programs. After every step: result is a UxDataArray; attached to the same grid object (deep copies: an equal, distinct grid); dims, "
@@ -149,7 +149,8 @@ def catalogue():
     return C
 
 
-OWN = ["grid_isel_kw", "grid_isel_dict", "grid_getitem", "grid_head", "grid_isel_with_lead", "integrate", "gradient", "difference", "topological_mean", "remap_nn", "remap_idw", "get_dual"]
+OWN = ["grid_isel_kw", "grid_isel_dict", "grid_getitem", "grid_head", "grid_isel_with_lead", "grid_isel_bool", "grid_isel_bool_da", "grid_isel_shuffled", "grid_isel_repeated",
+       "grid_isel_negstep", "grid_isel_scalar", "grid_tail", "grid_thin", "grid_where_drop", "grid_where_drop_other", "integrate", "gradient", "difference", "topological_mean", "remap_nn", "remap_idw", "get_dual"]
 
 
 def own_applicable(name, a):
@@ -157,8 +158,11 @@ def own_applicable(name, a):
     if d is None:
         return False
     n = a.sizes[d]
-    if name in ("grid_isel_kw", "grid_isel_dict", "grid_getitem", "grid_head"):
-        return n >= 2 and a.uxgrid is not None
+    if name in ("grid_isel_kw", "grid_isel_dict", "grid_getitem", "grid_head", "grid_isel_bool", "grid_isel_bool_da", "grid_isel_shuffled", "grid_isel_repeated", "grid_isel_negstep",
+                "grid_isel_scalar", "grid_tail", "grid_thin"):
+        return n >= 2 and getattr(a, "uxgrid", True) is not None
+    if name in ("grid_where_drop", "grid_where_drop_other"):
+        return n >= 2 and _num(a) and a.dtype.kind == "f"
     if name == "grid_isel_with_lead":
         return n >= 2 and _need_lead(a)
     if name == "integrate":
@@ -196,6 +200,34 @@ def apply_own(name, a, other_grid, rng):
         return a.head({d: max(1, n // 2)})
     if name == "grid_isel_with_lead":
         return a.isel({_lead(a): 0, d: idx})
+    if name in ("grid_isel_bool", "grid_isel_bool_da"):
+        mask = np.zeros(n, dtype=bool)
+        mask[idx] = True
+        if name == "grid_isel_bool_da":
+            import xarray as xr
+
+            return a.isel({d: xr.DataArray(mask, dims=[d])})
+        return a.isel({d: mask})
+    if name == "grid_isel_shuffled":
+        return a.isel({d: [int(i) for i in rng.permutation(idx)]})
+    if name == "grid_isel_repeated":
+        return a.isel({d: [idx[0]] + idx + [idx[-1]]})
+    if name == "grid_isel_negstep":
+        return a.isel({d: slice(None, None, -1)}) if rng.random() < 0.5 else a[{d: slice(n - 1, 0, -2)}]
+    if name == "grid_isel_scalar":
+        return a.isel({d: np.array([idx[-1]])})
+    if name == "grid_tail":
+        return a.tail({d: max(1, n // 2)})
+    if name == "grid_thin":
+        return a.thin({d: 2})
+    if name in ("grid_where_drop", "grid_where_drop_other"):
+        # a condition that is False for whole elements of the grid dimension: those elements are dropped
+        v = np.asarray(a.values, dtype=float)
+        red = np.nanmax(v, axis=tuple(i for i, dd in enumerate(a.dims) if dd != d)) if v.ndim > 1 else v
+        thr = float(np.nanmedian(red)) if np.any(np.isfinite(red)) else 0.0
+        if name == "grid_where_drop_other":
+            return a.where(a > thr, -5.0, drop=True)
+        return a.where(a > thr, drop=True)
     if name == "integrate":
         return a.integrate()
     if name == "gradient":
